@@ -12,8 +12,8 @@ import (
 )
 
 var serveExplain = map[string]string{
-	"C02": "Structural necessary conditions in the server's per-connection loop, decided for every path of the loop by exhaustive exploration of a finite abstraction (booleans, nil-ness, rule event bits): (R1) a request with 'Expect: 100-continue' whose body was not read (ExpectHandler / ContinueHandler rejection) is answered with Connection: close and never followed by another iteration; (R2) on every path from the handler to the next iteration the code has established, on the request that was actually served (not on a ctx swapped in by the timeout path), that there is no connection-backed body stream or that requestStream.fullyRead() is true - otherwise the close decision is true; the stream object is only released after that. (R3) a length-limited reader over the connection that is handed to a parser which may stop early (multipart pre-parse) is drained before success is reported; (R4) the flag behind fullyRead() for chunked bodies is raised only after the trailer section was read and its error examined, in every function that sets it. Not decided: the exact byte offset at which the next request starts for all inputs.",
-	"C10": "Structural necessary conditions of the keep-alive decision in the serve loop: (R1) the condition guarding SetConnectionClose depends (through phis, && / ||, and helper functions) on each documented source: DisableKeepalive, request and response Connection: close, MaxRequestsPerConn, CloseOnShutdown+stop, Expect/Continue rejection, unread streamed body; (R2) on every path: decision true => Connection: close is set on the response object that is written and no further iteration follows; decision false on a non-HTTP/1.1 request => Connection: keep-alive is set; (R2d) the loop is left after a written response, on the server's own decision, only when that response carried Connection: close; (R3) the decision does not read per-request bookkeeping from a ctx that was swapped in after the handler (timeout path); (R4) every comparison of a header value with the 'close' token - in the request and response head parsers and in the header setters - is made by a case-insensitive, list-aware matcher, never by an exact byte comparison, so 'Connection: Close' and 'keep-alive, close' count as close on both the server and the client side. Not decided: what the matcher accepts as token separators, client side reuse beyond the parsed flag.",
+	"C02": "Structural necessary conditions in the server's per-connection loop, decided for every path of the loop by exhaustive exploration of a finite abstraction (booleans, nil-ness, rule event bits): (R1) a request with 'Expect: 100-continue' whose body was not read (ExpectHandler / ContinueHandler rejection) is answered with Connection: close and never followed by another iteration; (R2) on every path from the handler to the next iteration the code has established, on the request that was actually served (not on a ctx swapped in by the timeout path), that there is no connection-backed body stream or that requestStream.fullyRead() is true - otherwise the close decision is true; the stream object is only released after that. (R3) a length-limited reader over the connection that is handed to a parser which may stop early (multipart pre-parse) is drained before success is reported; (R4) the flag behind fullyRead() for chunked bodies is raised only after the trailer section was read and its error examined, in every function that sets it; (R-pool) the pooled stream object starts clean: each of its fields (chunk remainder, byte count, end-of-body flag, declared length ...) is assigned on every path of its release or of its acquire function, so a body is never decoded with the leftovers of another connection's body. Not decided: the exact byte offset at which the next request starts for all inputs.",
+	"C10": "Structural necessary conditions of the keep-alive decision in the serve loop: (R1) the condition guarding SetConnectionClose depends (through phis, && / ||, and helper functions) on each documented source: DisableKeepalive, request and response Connection: close, MaxRequestsPerConn, CloseOnShutdown+stop, Expect/Continue rejection, unread streamed body; (R2) on every path: decision true => Connection: close is set on the response object that is written and no further iteration follows; decision false on a non-HTTP/1.1 request => Connection: keep-alive is set; (R2d) the loop is left after a written response, on the server's own decision, only when that response carried Connection: close; (R3) the decision does not read per-request bookkeeping from a ctx that was swapped in after the handler (timeout path); (R4) every comparison of a header value with the 'close' token - in the request and response head parsers and in the header setters - is made by a case-insensitive, list-aware matcher, never by an exact byte comparison, so 'Connection: Close' and 'keep-alive, close' count as close on both the server and the client side, and while a head is parsed a store to the close flag can only raise it (several Connection lines form one list); (R5) in the client transport the decision to pool a connection whose body is handed out as a stream is taken from a value computed when the response arrived - the boolean captured by the stream-close callback depends on the response's Connection: close - and not only from the caller-owned response header as it looks when the stream is closed. Not decided: what the matcher accepts as token separators, client side reuse beyond the parsed flag.",
 	"C11": "Structural necessary conditions of 'no state leaks between requests': (E7) every leaf field of Request, Response, RequestHeader, ResponseHeader, URI, Args, Cookie and RequestCtx is assigned (or known nil, or reset through its pointee) on every path of the type's reset method including callees, or is in a table of reasoned exemptions (scratch buffers, configuration, self pointers) - a newly added field is a violation until reset or exempted; (R-loop) every variable of the serve loop that survives an iteration is re-assigned before it is read in a later iteration on every path, or the loop provably ends; (R-reset) every path from the handler to the next iteration passes Request.Reset and Response.Reset; (R-ctx) every field of RequestCtx that a handler can set through an exported method and that the serve loop reads (hijack handler, no-response switch, timeout response) is cleared, found zero, or left behind with a replaced ctx on every path to the next request - neither Request.Reset nor Response.Reset touches them. Not decided: that getters return exactly what the current request sent.",
 	"C14": "The sequence of ConnState values the serve loop reports, decided on every path of the loop as an automaton: StateActive only follows New/Idle, StateIdle only follows Active, the handler and the response write happen in Active, an iteration that continues ends in Idle, and StateActive is only reported on a path on which a read of at least one byte succeeded; (R3) every function that runs the serve loop itself and reports states (ServeConn) reports StateNew before serving and, on every path to its return after serving, exactly one terminal state - StateHijacked exactly when the loop returned errHijacked, StateClosed otherwise. Not decided: the reports made by the worker pool (C13.R2 decides its terminal action) and cross-goroutine ordering.",
 	"C15": "Structural necessary conditions of graceful shutdown inside the serve loop, on every path: the per-connection idle marker is zero while the handler runs (so Shutdown's idle closer cannot close a busy connection), it is set non-zero after the response before the connection waits for the next request, the stop flag is tested after every response, and (R5) a response that was written into the connection writer is flushed before the writer is dropped whenever the serve function ends with a nil result (shutdown, client stopped sending) - so no answered request loses its response on a graceful end; (R6) in the shutdown code the Done channel is closed only under a false 'already closed' flag and the flag is raised after it, and wherever the channel reference is dropped the flag is lowered again on every path - otherwise the next Serve/Shutdown cycle of the same Server never closes its requests' Done channels. Not decided: Shutdown's poll loop and listener handling, liveness, interleavings.",
@@ -32,7 +32,7 @@ func init() {
 			if id == "C11" {
 				resetCoverageRule(p, r)
 				loopOwnedFieldsRule(p, r)
-				pooledHelperRule(p, r)
+				pooledHelperRule(p, r, "")
 			}
 			if id == "C11" || id == "C17" {
 				r.Floor("R-ctx", "handler-settable ctx fields read by the serve loop", p.serveLoop(id).counts["R-ctx handler-settable ctx fields read by the serve loop"], 3)
@@ -46,6 +46,7 @@ func init() {
 			}
 			if id == "C10" {
 				closeTokenRule(p, r)
+				clientCloseCaptureRule(p, r)
 			}
 			if id == "C15" {
 				doneChannelRule(p, r)
@@ -53,6 +54,7 @@ func init() {
 			if id == "C02" {
 				limitedReaderDrainRule(p, r)
 				streamConsumedRule(p, r)
+				pooledHelperRule(p, r, "requestStream")
 			}
 		}})
 	}
@@ -869,6 +871,49 @@ func closeTokenRule(p *Prog, r *Report) {
 		})
 	}
 	r.Floor("R4", "comparisons of header values with the 'close' token", n, 4)
+	// R4b: while a head is parsed the close flag is only ever raised. Connection may come in several lines
+	// that form one list, and framing errors raise the flag too: an assignment that can lower it lets a later
+	// line take back an earlier 'close'. (A store that is only reached while the flag is false cannot lower it.)
+	np := 0
+	for _, fn := range p.funcsIn("") {
+		usesScanner := false
+		for _, b := range fn.Blocks {
+			for _, in := range b.Instrs {
+				if al, ok := in.(*ssa.Alloc); ok && strings.HasSuffix(al.Type().String(), "headerScanner") {
+					usesScanner = true
+				}
+			}
+		}
+		if !usesScanner {
+			continue
+		}
+		for _, b := range fn.Blocks {
+			for _, in := range b.Instrs {
+				st, ok := in.(*ssa.Store)
+				if !ok {
+					continue
+				}
+				if _, fv := fieldOfAddr(st.Addr); fv == nil || fv.Name() != "connectionClose" {
+					continue
+				}
+				np++
+				raises := false
+				if c, isC := st.Val.(*ssa.Const); isC && c.Value != nil && c.Value.ExactString() == "true" {
+					raises = true
+				}
+				if !raises {
+					for _, g := range guardsOf(b) {
+						if strings.Contains(g.Atom, "connectionClose") && !g.Pol {
+							raises = true // only reached while the flag is false
+						}
+					}
+				}
+				r.Check("R4", fmt.Sprintf("%s: a store to the close flag while the head is parsed can only raise it", funcName(fn)), raises, p.Pos(st.Pos()),
+					"the flag is assigned a value that may be false although an earlier header line (Connection: close, or a framing rule) may already have raised it: 'Connection: close' followed by 'Connection: foo' keeps the connection alive")
+			}
+		}
+	}
+	r.Floor("R4", "stores to the close flag in the head parsers", np, 8)
 }
 
 // C15.R6: the Done channel and its 'closed' flag move together.
@@ -988,7 +1033,7 @@ func loopOwnedFieldsRule(p *Prog, r *Report) {
 // next request that is handed the object starts with what the previous one left in it (a half-read chunk
 // counter, a deadline, a connection). Fields whose type carries no request data (locks, reusable channels and
 // timers) are exempt by type; anything else needs a reason in the table below.
-func pooledHelperRule(p *Prog, r *Report) {
+func pooledHelperRule(p *Prog, r *Report, only string) {
 	exempt := map[string]string{
 		"pipelineWork.respCopy": "embedded Response: covered by Response.Reset (E7), which release calls",
 		"pipelineWork.reqCopy":  "embedded Request: covered by Request.Reset (E7), which release calls",
@@ -1039,7 +1084,7 @@ func pooledHelperRule(p *Prog, r *Report) {
 	npairs := 0
 	for _, k := range names {
 		acq, rel := byType[k][0], byType[k][1]
-		if acq == nil || rel == nil {
+		if acq == nil || rel == nil || (only != "" && k != only) {
 			continue
 		}
 		npairs++
@@ -1089,7 +1134,11 @@ func pooledHelperRule(p *Prog, r *Report) {
 				"a recycled "+k+" hands this field's previous content to its next user")
 		}
 	}
-	r.Floor("R-pool", "acquire/release pairs of pooled helper objects", npairs, 4)
+	want := 4
+	if only != "" {
+		want = 1
+	}
+	r.Floor("R-pool", "acquire/release pairs of pooled helper objects", npairs, want)
 }
 
 // mustStoredFields: names of the fields of struct type typ (by short name) that fn assigns on every path from
@@ -1194,4 +1243,59 @@ func mustStoredFields(fn *ssa.Function, typ string) map[string]bool {
 		}
 	}
 	return res
+}
+
+// clientCloseCaptureRule (C10.R5): see the explanation text.
+func clientCloseCaptureRule(p *Prog, r *Report) {
+	rt := p.Func("(*transport).RoundTrip")
+	relC := p.Func("(*HostClient).ReleaseConn")
+	if rt == nil || relC == nil {
+		r.Undecided("R5", "(*transport).RoundTrip / (*HostClient).ReleaseConn", "not found")
+		return
+	}
+	n := 0
+	for _, an := range rt.AnonFuncs {
+		pools := false
+		allCalls(an, func(b *ssa.BasicBlock, c ssa.CallInstruction) {
+			if isCallTo(c, relC) {
+				pools = true
+			}
+		})
+		if !pools {
+			continue
+		}
+		n++
+		captured := false
+		for _, b := range rt.Blocks {
+			for _, in := range b.Instrs {
+				mc, ok := in.(*ssa.MakeClosure)
+				if !ok || mc.Fn != ssa.Value(an) {
+					continue
+				}
+				for _, bind := range mc.Bindings {
+					vals := []ssa.Value{bind}
+					if al, ok := bind.(*ssa.Alloc); ok {
+						for _, ref := range *al.Referrers() {
+							if st, ok := ref.(*ssa.Store); ok && st.Addr == ssa.Value(al) {
+								vals = append(vals, st.Val)
+							}
+						}
+					}
+					for _, v := range vals {
+						if !isBool(v.Type()) {
+							continue
+						}
+						for a := range condAtoms(v) {
+							if strings.Contains(a, "ConnectionClose") && strings.Contains(a, "Response") {
+								captured = true
+							}
+						}
+					}
+				}
+			}
+		}
+		r.Check("R5", "transport: the close decision captured by the stream-close callback includes the response's Connection: close as received", captured, p.Pos(an.Pos()),
+			"the callback decides from the response header as it looks when the stream is closed; the header belongs to the caller (a proxy strips hop-by-hop headers before it copies the body), so a connection the server announced it will close goes back to the pool")
+	}
+	r.Floor("R5", "stream-close callbacks that can pool the connection", n, 1)
 }
